@@ -113,8 +113,8 @@ Qed.
 Lemma cget_map_lits : forall (g : var -> colour) (ls : list lit) v,
   cget (map (fun l => (fst l, g (fst l))) ls) v = if existsb (fun l => Nat.eqb v (fst l)) ls then g v else cnone.
 Proof.
-  induction ls as [|l ls IH]; simpl; intros v; auto.
-  destruct (Nat.eqb_spec v (fst l)) as [->|N]; simpl; auto.
+  induction ls as [|[w b] ls IH]; simpl; intros v; auto.
+  destruct (Nat.eqb_spec v w) as [->|N]; simpl; [reflexivity | apply IH].
 Qed.
 
 Lemma feval_big_or : forall a fs, feval a (big_or fs) = existsb (feval a) fs.
@@ -151,14 +151,14 @@ Qed.
 Lemma in_remove_lit : forall k c l, In l (remove_lit k c) <-> In l c /\ l <> k.
 Proof.
   intros k c l. unfold remove_lit. rewrite filter_In, negb_true_iff. split; intros [H1 H2]; split; auto.
-  - intros ->. assert (lit_eqb k k = true) by now apply lit_eqb_eq. congruence.
+  - intros E. subst. rewrite (proj2 (lit_eqb_eq _ _) eq_refl) in H2. discriminate.
   - destruct (lit_eqb l k) eqn:E; auto. apply lit_eqb_eq in E. contradiction.
 Qed.
 
 Lemma colour_cases : forall c : colour, is_none c = false -> fst c = false -> snd c = true.
-Proof. intros [[] []]; simpl; intros; congruence. Qed.
+Proof. intros [[] []]; unfold is_none; simpl; intros; congruence. Qed.
 Lemma colour_cases' : forall c : colour, is_none c = false -> snd c = false -> fst c = true.
-Proof. intros [[] []]; simpl; intros; congruence. Qed.
+Proof. intros [[] []]; unfold is_none; simpl; intros; congruence. Qed.
 
 (* ---- the invariant ----------------------------------------------------------------------------- *)
 Section Correct.
